@@ -818,13 +818,14 @@ pub fn run_c15(ctx: &Ctx) -> i32 {
                     }
                     let mut rng = SmallRng::seed_from_u64(ctx.case_seed("acct", c));
                     evals += 1;
-                    let viols = match if ctx.prop == "C02" { 4 } else { c % 6 } {
+                    let viols = match if ctx.prop == "C02" { 4 } else { c % 7 } {
                         0 => acct_run(ctx, c, &mut rng, &mut local, &mut fps),
                         1 => fragment_run(c, &mut rng, &mut local, &mut fps),
                         2 => pressure_run(c, &mut rng, &mut local, &mut fps),
                         3 => overwrite_run(c, &mut rng, &mut local, &mut fps),
                         4 => tight_run(c, &mut rng, &mut local, &mut fps),
-                        _ => racing_run(ctx, c, &mut rng, &mut local, &mut fps),
+                        5 => racing_run(ctx, c, &mut rng, &mut local, &mut fps),
+                        _ => pressure_race_run(c, &mut rng, &mut local, &mut fps),
                     };
                     if !viols.is_empty() {
                         let mut e = shared.lock().unwrap();
@@ -833,7 +834,7 @@ pub fn run_c15(ctx: &Ctx) -> i32 {
                         }
                     }
                     if c < 3 {
-                        let kind = ["accounting identity per command", "drift-free fragment (behavioural)", "pressure phase then small live set (behavioural)", "overwrite-heavy workload under a generous limit (behavioural form of the known drift)", "store filled exactly to its limit, then one conditional command carrying a stale CAS", "concurrent readers / deleters of one expired key under a forced schedule; accounting compared at quiescence"][if ctx.prop == "C02" { 4 } else { (c % 6) as usize }];
+                        let kind = ["accounting identity per command", "drift-free fragment (behavioural)", "pressure phase then small live set (behavioural)", "overwrite-heavy workload under a generous limit (behavioural form of the known drift)", "store filled exactly to its limit, then one conditional command carrying a stale CAS", "concurrent readers / deleters of one expired key under a forced schedule; accounting compared at quiescence", "stores of fresh keys under genuine pressure racing deletes of recent keys (direct API, volume); accounting compared at quiescence"][if ctx.prop == "C02" { 4 } else { (c % 7) as usize }];
                         shared.lock().unwrap().sample(json!({"case": c, "kind": kind}));
                     }
                 }
@@ -1108,6 +1109,87 @@ fn racing_run(ctx: &Ctx, case: u64, rng: &mut SmallRng, local: &mut BTreeMap<Str
 /// eviction is justified yet; then ONE command carrying a stale CAS is issued against a live key. It must
 /// be refused with 'key exists', and every item must still be there unchanged: memory pressure is no
 /// excuse for dropping the CAS comparison or the item.
+/// Genuine memory pressure and deletes at the same time, at volume: setters store fresh keys (every store evicts
+/// once the store is full), deleters delete recently stored keys, so that now and then a delete removes exactly
+/// the record an eviction round has just picked. Nothing is overwritten and nothing expires, so the accounting of
+/// this workload is exact: at quiescence the accounted usage must equal the bytes stored. A refund booked twice
+/// (or not at all) shows as a difference; an *under*-accounted counter is what later lets the store outgrow its
+/// limit or, after a wrap-around, evict live items without pressure.
+fn pressure_race_run(case: u64, rng: &mut SmallRng, local: &mut BTreeMap<String, u64>, fps: &mut Vec<u64>) -> Vec<RunErr> {
+    use memcrs::cache::cache::{CacheMetaData, Record};
+    if cfg!(miri) {
+        return vec![];
+    }
+    let rec_size = Record::new(Bytes::from(vec![b'x'; 76]), 0, 0, 0).len() as u64;
+    let capacity = rng.gen_range(150..400u64);
+    let l = capacity * rec_size;
+    let stack = Stack::new(StoreKind::Random(l), 100);
+    let setters = rng.gen_range(2..=3usize);
+    let deleters = rng.gen_range(2..=4usize);
+    let per_setter = rng.gen_range(6_000..14_000usize);
+    let latest: Arc<Vec<AtomicU64>> = Arc::new((0..setters).map(|_| AtomicU64::new(0)).collect());
+    let done = Arc::new(AtomicU64::new(0));
+    let barrier = Arc::new(Barrier::new(setters + deleters));
+    let mut hs = vec![];
+    for t in 0..setters {
+        let (memc, latest, done, barrier) = (stack.memc.clone(), latest.clone(), done.clone(), barrier.clone());
+        hs.push(std::thread::spawn(move || {
+            barrier.wait();
+            for i in 0..per_setter {
+                let _ = memc.set(Bytes::from(format!("s{}-{}", t, i)), Record::new(Bytes::from(vec![b'x'; 76]), 0, 0, 0));
+                latest[t].store(i as u64, Ordering::Release);
+            }
+            done.fetch_add(1, Ordering::SeqCst);
+        }));
+    }
+    let deletes_ok = Arc::new(AtomicU64::new(0));
+    for d in 0..deleters {
+        let (memc, latest, done, barrier, deletes_ok) = (stack.memc.clone(), latest.clone(), done.clone(), barrier.clone(), deletes_ok.clone());
+        let seed = case * 31 + d as u64;
+        hs.push(std::thread::spawn(move || {
+            let mut rng = SmallRng::seed_from_u64(seed);
+            barrier.wait();
+            let mut ok = 0u64;
+            while (done.load(Ordering::SeqCst) as usize) < latest.len() {
+                let t = rng.gen_range(0..latest.len());
+                let newest = latest[t].load(Ordering::Acquire);
+                let back = rng.gen_range(0..capacity);
+                if newest >= back {
+                    if memc.delete(Bytes::from(format!("s{}-{}", t, newest - back)), CacheMetaData::new(0, 0, 0)).is_ok() {
+                        ok += 1;
+                    }
+                }
+            }
+            deletes_ok.fetch_add(ok, Ordering::Relaxed);
+        }));
+    }
+    for h in hs {
+        let _ = h.join();
+    }
+    let (n, bytes) = stack.content_size();
+    let accounted = stack.policy.as_ref().map(|p| p.verif_memory_usage()).unwrap_or(0);
+    *local.entry("pressure_race:runs".into()).or_insert(0) += 1;
+    *local.entry("pressure_race:stores_under_pressure".into()).or_insert(0) += (setters * per_setter) as u64;
+    *local.entry("pressure_race:successful_concurrent_deletes".into()).or_insert(0) += deletes_ok.load(Ordering::Relaxed);
+    fps.push(fnv(format!("pressure-race:{}:{}:{}", setters, deleters, capacity / 50).as_bytes()));
+    let mut out = vec![];
+    if accounted != bytes {
+        let under = accounted < bytes || accounted > (1u64 << 62);
+        out.push((
+            Viol::new(
+                &["C15", "C14"],
+                if under { "under-accounting" } else { "acct-drift:pressure-race" },
+                format!(
+                    "{} setters x {} stores of fresh keys under a limit of {} records racing {} deleters ({} successful deletes), nothing overwritten or expired: at quiescence {} bytes are stored in {} records but {} are accounted",
+                    setters, per_setter, capacity, deleters, deletes_ok.load(Ordering::Relaxed), bytes, n, accounted
+                ),
+            ),
+            json!({"engine":"acct-pressure-race","case":case,"limit":l,"stored":bytes,"accounted":accounted,"replay_cmd":format!("/verif/check C15 replay --case {}", case)}),
+        ));
+    }
+    out
+}
+
 fn tight_run(case: u64, rng: &mut SmallRng, local: &mut BTreeMap<String, u64>, fps: &mut Vec<u64>) -> Vec<RunErr> {
     let n = rng.gen_range(4..24usize);
     let lens: Vec<usize> = (0..n).map(|i| if i == 0 { 2 } else { rng.gen_range(0..200) }).collect();
